@@ -12,8 +12,6 @@ try:
     for i in range(0, len(args), 3):
         f, old, new = args[i:i+3]
         p = os.path.join(d, f); s = open(p).read()
-        old = old.encode().decode("unicode_escape") if "\\n" in old or "\\t" in old else old
-        new = new.encode().decode("unicode_escape") if "\\n" in new or "\\t" in new else new
         if s.count(old) != 1:
             print("ERROR: %r occurs %d times in %s" % (old, s.count(old), f)); sys.exit(2)
         open(p, "w").write(s.replace(old, new))
